@@ -194,8 +194,9 @@ package config
 //@   callpre Run @the-stream-starts-without-waiting-for-anything-else arg1 == ctx && forall x loc :: !waitedfor(x)
 
 //@ func (*discoveryClient).StreamDependencies$1
-//@   prop C16
+//@   prop C16 C08
 //@   modifies all
+//@   callpre dynamic @the-store-learns-a-dependency-change-before-anything-is-subscribed-or-unsubscribed-for-it forall n string :: has(deref(c).svcConfig.svcDiscoveryClient.subscribed, n) == old(has(deref(c).svcConfig.svcDiscoveryClient.subscribed, n)) && has(deref(c).svcEndpoint.svcDiscoveryClient.subscribed, n) == old(has(deref(c).svcEndpoint.svcDiscoveryClient.subscribed, n))
 //@   loop 0 assume deref(c) != nil && deref(c).svcConfig != nil && deref(c).svcEndpoint != nil && deref(c).svcConfig.svcDiscoveryClient != nil && deref(c).svcEndpoint.svcDiscoveryClient != nil && deref(c).svcConfig.svcDiscoveryClient.subscribed != nil && deref(c).svcConfig.svcDiscoveryClient.subCh != nil && deref(c).svcEndpoint.svcDiscoveryClient.subscribed != nil && deref(c).svcEndpoint.svcDiscoveryClient.subCh != nil && (forall k int :: 0 <= k && k < len(added) ==> added[k] != nil)
 //@   loop 1 assume deref(c) != nil && deref(c).svcConfig != nil && deref(c).svcEndpoint != nil && deref(c).svcConfig.svcDiscoveryClient != nil && deref(c).svcEndpoint.svcDiscoveryClient != nil && deref(c).svcConfig.svcDiscoveryClient.subscribed != nil && deref(c).svcConfig.svcDiscoveryClient.unsubCh != nil && deref(c).svcEndpoint.svcDiscoveryClient.subscribed != nil && deref(c).svcEndpoint.svcDiscoveryClient.unsubCh != nil && (forall k int :: 0 <= k && k < len(removed) ==> removed[k] != nil)
 //@   callpre Subscribe @every-added-dependency-is-subscribed-on-both-streams rangeindex + 1 < len(added) && arg1 == added[rangeindex + 1].Name
